@@ -228,6 +228,10 @@ structure Scenario where
   coredataOnly : Bool := false
   init : List (Path × FileSt Gen)
   trace : List (Effect Gen)
+  /-- paths that no meson command ever reads (.gitignore, .hgignore, CACHEDIR.TAG, the lock file) -/
+  ignored : List Path := []
+  /-- the recorded effect trace of the follow-up `meson setup --reconfigure` on the directory the command leaves -/
+  recovery : List (Effect Gen) := []
 
 def Scenario.fs0 (sc : Scenario) : FS Gen := FS.ofList sc.init
 
@@ -307,5 +311,88 @@ def ninjaTempTruncating {β} (tmp dst : Path) (pre body : List β) : List (CEffe
 /-- the same without the truncating open: everything goes through append-mode handles -/
 def ninjaTempAppending {β} (tmp dst : Path) (pre body : List β) : List (CEffect β) :=
   [.openAppend tmp, .write tmp pre, .openAppend tmp, .write tmp body, .replace tmp dst]
+
+/-! ### every written file: torn copies must be repaired by the follow-up run
+
+A file that is written in place can be left torn by a kill.  That is acceptable only if the follow-up run rewrites
+it unconditionally — whatever it finds there.  `repairs p rt`: after the effects `rt`, from *any* directory, `p` is
+not torn.  Decided by an abstract run that knows nothing about the starting directory. -/
+
+/-- what is known about a file whatever the starting directory was -/
+inductive Abs where
+  | unk      -- anything
+  | open_    -- exists and is being written (torn)
+  | good     -- exists and is complete (ok, or a directory)
+  | gone     -- does not exist
+  deriving DecidableEq, Repr
+
+abbrev AFS := Path → Abs
+
+def AFS.set (a : AFS) (p : Path) (v : Abs) : AFS := fun q => if q = p then v else a q
+
+def absStep {α} (a : AFS) : Effect α → AFS
+  | .openW p => a.set p .open_
+  | .openA _ => a
+  | .write p => match a p with
+      | .gone => a
+      | .unk => a
+      | _ => a.set p .open_
+  | .flush _ => a
+  | .fsync _ => a
+  | .close p _ => match a p with
+      | .open_ => a.set p .good
+      | _ => a
+  | .replace s d => match a s with
+      | .gone => a
+      | .good => (a.set d .good).set s .gone
+      | .open_ => (a.set d .open_).set s .gone
+      | .unk => (a.set d .unk).set s .unk
+  | .copyfile s d => match a s with
+      | .gone => a
+      | .good => a.set d .good
+      | .open_ => a.set d .open_
+      | .unk => a.set d .unk
+  | .unlink p => a.set p .gone
+  | .rmdir p => a.set p .gone
+  | .mkdir p => match a p with
+      | .gone => a.set p .good
+      | _ => a
+  | .other _ => a
+
+def absRun {α} (a : AFS) : List (Effect α) → AFS
+  | [] => a
+  | e :: es => absRun (absStep a e) es
+
+/-- the abstract value describes the concrete state -/
+def Abs.describes {α} : Abs → FileSt α → Prop
+  | .unk, _ => True
+  | .open_, s => s = .torn
+  | .good, s => (∃ c, s = .ok c) ∨ s = .dir
+  | .gone, s => s = .absent
+
+/-- after `rt`, from any directory described by `a0`, `p` is complete or absent -/
+def repairs {α} (a0 : AFS) (p : Path) (rt : List (Effect α)) : Bool :=
+  match absRun a0 rt p with
+  | .good => true
+  | .gone => true
+  | _ => false
+
+/-- nothing is known about the directory -/
+def AFS.top : AFS := fun _ => .unk
+
+/-- sources of a rename: temp files (their leftovers are covered by `replacesFresh`) -/
+def replaceSources {α} : List (Effect α) → List Path
+  | [] => []
+  | .replace s _ :: es => s :: replaceSources es
+  | _ :: es => replaceSources es
+
+/-- every path the trace creates or writes -/
+def writeSet {α} : List (Effect α) → List Path
+  | [] => []
+  | .openW p :: es => p :: writeSet es
+  | .openA p :: es => p :: writeSet es
+  | .replace _ d :: es => d :: writeSet es
+  | .copyfile _ d :: es => d :: writeSet es
+  | _ :: es => writeSet es
 
 end MesonModel.Crash
